@@ -316,7 +316,7 @@ func drive(chk *Check, tier string) int {
 			if k.Property == chk.ID && k.Key == v.Key {
 				if !knownSeen[k.Key] {
 					knownSeen[k.Key] = true
-					fmt.Printf("KNOWN-FINDING: property=%s %s\n", chk.ID, k.Text)
+					fmt.Printf("KNOWN-FINDING: %s\n", k.Text)
 				}
 				counters["known_finding_witnesses"]++
 				return
